@@ -106,6 +106,9 @@ class Tr:
                 return f"(ElexModel.pyRound {self.expr(args[0])} {int(args[1].value)})"
             if f == "np.where" and len(args) == 3:
                 return f"(if {self.expr(args[0])} then {self.expr(args[1])} else {self.expr(args[2])})"
+            if f == "np.nan_to_num" and len(args) == 1 and isinstance(args[0], ast.BinOp) and isinstance(args[0].op, ast.Div) \
+                    and all(k.arg in ("nan", "posinf", "neginf") and ast.unparse(k.value) == "0" for k in n.keywords):
+                return f"(ElexModel.divz {self.expr(args[0].left)} {self.expr(args[0].right)})"
             if f == "len" and len(args) == 1:
                 return f"(({self.expr(args[0])}.length : Nat) : Rat)"
             raise TranslateError(f"call {f}")
@@ -180,7 +183,13 @@ class Flow(Tr):
                 self.ret = st.value
                 return
             if isinstance(st, ast.If):
-                test = self.expr(st.test)
+                try:
+                    test = self.expr(st.test)
+                except TranslateError:
+                    for sub in ast.walk(st):  # a branch on something outside the subset: whatever it assigns is unknown
+                        for t in self._targets(sub):
+                            self.env[t] = None
+                    continue
                 if test in ("true", "false"):
                     self.run(st.body if test == "true" else st.orelse)
                     if getattr(self, "ret", None) is not None:
@@ -266,7 +275,7 @@ class NFlow(Flow):
             return self._e(n.value)
         if isinstance(n, ast.Call) and isinstance(n.func, ast.Attribute) and not n.keywords:
             a = n.func.attr
-            if a == "flatten" and not n.args:
+            if (a == "flatten" and not n.args) or (a == "reshape" and [ast.unparse(x) for x in n.args] == ["-1", "1"]):
                 return self._e(n.func.value)
             if a == "astype" and len(n.args) == 1:
                 inner = self._e(n.func.value)
@@ -368,7 +377,7 @@ def _np_interval_defs():
 
 
 def gen_C03():
-    return [_unit_pred_def()] + _np_interval_defs()[:2] + _gauss_agg_defs()[0]
+    return [_unit_pred_def()] + _np_interval_defs()[:2] + _gauss_agg_defs()[0] + _results_handler_shape()
 
 
 def gen_C05():
@@ -454,6 +463,48 @@ def gen_C06():
     hi = tr.expr(_nth_assigned(fn, "interval_upper", "np.maximum"))
     out.append(lean_def("straddle_lower", [("lo", "Rat"), ("pred", "Rat")], "Rat", "  " + lo))
     out.append(lean_def("straddle_upper", [("hi", "Rat"), ("pred", "Rat")], "Rat", "  " + hi))
+    return out + _boot_agg_defs()
+
+
+def _boot_agg_defs():
+    """bootstrap aggregate formulas with the indicator-matrix products as leaves"""
+    src, tree = _parse("models/BootstrapElectionModel.py")
+    out = []
+    gi = _find(tree, "BootstrapElectionModel", "get_aggregate_prediction_intervals")
+    leaves = {"aggregate_indicator_unexpected.T @ turnout_unexpected": "zU", "aggregate_indicator_unexpected.T @ margin_unexpected": "yzU",
+              "aggregate_indicator_train.T @ (weights_train * z_train)": "zT", "aggregate_indicator_train.T @ (weights_train * yz_train)": "yzT",
+              "aggregate_indicator_test.T @ self.errors_B_1": "e1", "aggregate_indicator_test.T @ self.errors_B_2": "e2",
+              "aggregate_indicator_test.T @ self.errors_B_3": "e3", "aggregate_indicator_test.T @ self.errors_B_4": "e4",
+              "aggregate_indicator_test.T @ self.weighted_z_test_pred": "zN", "aggregate_indicator_test.T @ self.weighted_yz_test_pred": "yzN",
+              "self._is_top_level_aggregate(aggregate)": "(B: top)", "self.aggregate_pred_margin": "reported"}
+    fl = NFlow(src, leaves)
+    fl.run([s for s in gi.body if not isinstance(s, ast.Return)])
+    for k in ("error_diff", "aggregate_perc_margin_total", "aggregate_z_total", "divided_error_B_1", "divided_error_B_2"):
+        if fl.env.get(k) is None:
+            raise TranslateError("get_aggregate_prediction_intervals: " + k)
+    ps = [("zU", "Rat"), ("yzU", "Rat"), ("zT", "Rat"), ("yzT", "Rat"), ("e1", "Rat"), ("e2", "Rat"), ("e3", "Rat"), ("e4", "Rat")]
+    out.append(lean_def("error_diff", ps, "Rat", "  " + fl.final(fl.env["error_diff"])))
+    out.append(lean_def("interval_centre", [("top", "Bool"), ("reported", "Rat"), ("zU", "Rat"), ("yzU", "Rat"), ("zT", "Rat"), ("yzT", "Rat"),
+                                            ("zN", "Rat"), ("yzN", "Rat")], "Rat", "  " + fl.final(fl.env["aggregate_perc_margin_total"])))
+    # the draws the national summary reads are stored for top-level aggregates only
+    stores = [ast.unparse(n.test) + ": " + "; ".join(ast.unparse(s) for s in n.body) for n in gi.body if isinstance(n, ast.If)
+              and any("self.divided_error_B_1" in ast.unparse(s) for s in n.body)]
+    out.append(_strlist("draws_stored", stores))
+    gp = _find(tree, "BootstrapElectionModel", "get_aggregate_predictions")
+    leaves2 = {"aggregate_indicator_unexpected.T @ turnout_unexpected": "zU", "aggregate_indicator_train.T @ (weights_train * z_train)": "zT",
+               "aggregate_indicator_test.T @ self.weighted_z_test_pred": "zN", "raw_margin_df.pred_margin": "predSum",
+               "raw_margin_df.results_margin": "resSum"}
+    fl2 = NFlow(src, leaves2)
+    fl2.run([s for s in gp.body if not isinstance(s, (ast.Return, ast.If))])
+    if fl2.env.get("aggregate_z_total") is None:
+        raise TranslateError("get_aggregate_predictions: aggregate_z_total")
+    out.append(lean_def("pred_turnout", [("zU", "Rat"), ("zT", "Rat"), ("zN", "Rat")], "Rat", "  " + fl2.final(fl2.env["aggregate_z_total"])))
+    for col, nm, arg in (("raw_margin_df['pred_margin']", "pred_margin", "predSum"), ("raw_margin_df['results_margin']", "results_margin", "resSum")):
+        if fl2.env.get(col) is None:
+            raise TranslateError("get_aggregate_predictions: " + col)
+        out.append(lean_def(nm, [(arg, "Rat"), ("zU", "Rat"), ("zT", "Rat"), ("zN", "Rat")], "Rat", "  " + fl2.final(fl2.env[col])))
+    out.append(_strlist("pred_turnout_column", [ast.unparse(fl2_t) for fl2_t in [assigned_expr(gp, "raw_margin_df['pred_turnout']")]]))
+    out.append(_strlist("raw_sums", [ast.unparse(assigned_expr(gp, "raw_margin_df"))]))
     return out
 
 
@@ -858,8 +909,68 @@ def _units_defs():
     return out
 
 
+def _estimandizer_defs():
+    """Estimandizer: two-party weights, margin, normalised margin, turnout factor, the +1 of the baseline"""
+    src, tree = _parse("handlers/data/Estimandizer.py")
+    fn = _find(tree, None, "margin")
+    names = {}
+    for st in fn.body:
+        if isinstance(st, ast.Assign) and isinstance(st.targets[0], ast.Name) and isinstance(st.value, ast.JoinedStr):
+            names[st.targets[0].id] = ast.unparse(st.value)
+
+    class F(Flow):
+        def _targets(self, st):
+            out = []
+            for t in (st.targets if isinstance(st, ast.Assign) else [st.target] if isinstance(st, ast.AugAssign) else []):
+                if isinstance(t, ast.Subscript) and isinstance(t.slice, ast.Name) and t.slice.id in names:
+                    out.append(f"{ast.unparse(t.value)}[{names[t.slice.id]}]")
+                else:
+                    out.append(ast.unparse(t))
+            return out
+
+    fl = F(src, {"data_df[f'{col_prefix}dem']": "dem", "data_df[f'{col_prefix}gop']": "gop"})
+    fl.run(fn.body)
+    cols = {"weights": "data_df[f'{col_prefix}weights']", "margin": "data_df[f'{col_prefix}margin']",
+            "normalized_margin": "data_df[f'{col_prefix}normalized_margin']"}
+    out = []
+    for nm, key in cols.items():
+        if fl.env.get(key) is None:
+            raise TranslateError("Estimandizer.margin: " + key)
+        out.append(lean_def("est_" + nm, [("dem", "Rat"), ("gop", "Rat")], "Rat", "  " + fl.env[key]))
+    cls = "Estimandizer"
+    tf = _find(tree, cls, "add_turnout_factor")
+    tr = Tr(src, {"data_df.results_weights": "rw", "data_df.baseline_weights": "bw"})
+    out.append(lean_def("turnout_factor", [("rw", "Rat"), ("bw", "Rat")], "Rat", "  " + tr.expr(assigned_expr(tf, "data_df['turnout_factor']"))))
+    ab = _find(tree, cls, "add_estimand_baselines")
+    v = assigned_expr(ab, "data_df[f'last_election_results_{estimand}']")
+    if not (isinstance(v, ast.BinOp) and isinstance(v.op, ast.Add) and ast.unparse(v.left) == "data_df[baseline_col].copy()"):
+        raise TranslateError("add_estimand_baselines: last_election_results")
+    out.append(lean_def("last_election_results", [("b", "Rat")], "Rat", "  " + Tr(src, {"data_df[baseline_col].copy()": "b"}).expr(v)))
+    aw = _find(tree, cls, "add_weights")
+    out.append(_strlist("default_weights", [ast.unparse(s) for s in aw.body if isinstance(s, ast.Assign)]))
+    return out
+
+
+def _results_handler_shape():
+    """ModelResultsHandler: which column of which frame receives what; the unit table; how estimands are joined"""
+    src, tree = _parse("handlers/data/ModelResults.py")
+    cls = "ModelResultsHandler"
+    cols = []
+    for fname in ("add_unit_predictions", "add_unit_turnout_predictions", "add_unit_intervals", "add_agg_predictions"):
+        fn = _find(tree, cls, fname)
+        for n in ast.walk(fn):
+            if isinstance(n, ast.Assign) and isinstance(n.targets[0], ast.Subscript) and not ast.unparse(n.targets[0]).startswith("self.unit_data"):
+                cols.append(f"{fname}: {ast.unparse(n.targets[0])} = {ast.unparse(n.value)}"[:220])
+    fn = _find(tree, cls, "add_unit_intervals")
+    ut = [ast.unparse(n.value).replace("\n", " ") for n in ast.walk(fn) if isinstance(n, ast.Assign) and ast.unparse(n.targets[0]) == "self.unit_data[estimand]"]
+    pf = _find(tree, cls, "process_final_results")
+    merges = [ast.unparse(n).replace("\n", " ")[:200] for n in ast.walk(pf) if isinstance(n, ast.Assign) and ast.unparse(n.targets[0]) in ("merge_on", "agg_df")]
+    merges += [ast.unparse(n.value).replace("\n", " ")[:200] for n in ast.walk(pf) if isinstance(n, ast.Assign) and "unit_data" in ast.unparse(n.targets[0])]
+    return [_strlist("results_handler_columns", cols), _strlist("unit_table", ut), _strlist("final_joins", merges)]
+
+
 def gen_C09():
-    return _units_defs()
+    return _units_defs() + _estimandizer_defs()
 
 
 UNITS = {"reporting_units": "rep", "unexpected_units": "unexp", "nonreporting_units": "nonrep"}
